@@ -115,6 +115,101 @@ pub fn test_prog(c: &ProgCase) -> Verdict {
     Verdict::pass(nontrivial).with_labels(labels)
 }
 
+/// every atom of the program and environment (operators, paths, quoted values) gets a generated internal representation
+pub fn gen_repr_case(t: &mut Tape, cfg: &ProgCfg) -> ProgCase {
+    let mut c = gen_prog_case(t, cfg);
+    for d in [&mut c.p.prog, &mut c.p.env] {
+        for n in d.n.iter_mut() {
+            if let N::A(_, r) = n {
+                *r = crate::r#gen::atoms::gen_repr(t);
+            }
+        }
+    }
+    c
+}
+
+/// path lookups: a bare path atom (or a path under a few f/r operators) evaluated in an environment with a deep
+/// generated spine; the path follows the spine for a generated number of steps (also one step too far), is written
+/// without / with redundant leading zero bytes and stored in every internal representation
+pub fn gen_path_case(t: &mut Tape) -> ProgCase {
+    use crate::dag::Repr;
+    let depth = match t.below(6) {
+        0 => t.below(8),
+        1 => 6 + t.below(4),   // around 7/8 bits
+        2 => 14 + t.below(4),  // around 15/16 bits
+        3 => 22 + t.below(4),  // around 23/24 bits
+        4 => 30 + t.below(4),  // around 31/32 bits
+        _ => t.below(45),
+    } as usize;
+    let mut dirs: Vec<bool> = Vec::new(); // true = rest
+    for _ in 0..depth {
+        dirs.push(match t.below(4) { 0 => false, 1 | 2 => true, _ => t.flip() });
+    }
+    // all-ones paths (0xff, 0xffff...) need "rest" everywhere
+    if t.chance(1, 3) {
+        for d in dirs.iter_mut() {
+            *d = true;
+        }
+    }
+    let mut env = Dag::new();
+    let mut cur = {
+        let b = crate::r#gen::atoms::gen_atom(t, 20);
+        env.atom(&b)
+    };
+    if t.chance(1, 3) {
+        let x = env.atom(&[7]);
+        cur = env.pair(cur, x);
+    }
+    for d in dirs.iter().rev() {
+        let sib = {
+            let b = crate::r#gen::atoms::gen_atom(t, 8);
+            env.atom(&b)
+        };
+        cur = if *d { env.pair(sib, cur) } else { env.pair(cur, sib) };
+    }
+    let _ = cur;
+    // number of steps taken: mostly the full depth, sometimes fewer or one more
+    let steps = match t.below(6) {
+        0 => t.below(depth as u32 + 1) as usize,
+        1 => depth + 1 + t.below(2) as usize,
+        _ => depth,
+    };
+    let mut v = num_bigint::BigUint::from(1u32) << steps;
+    for k in 0..steps {
+        let bit = if k < depth { dirs[k] } else { t.flip() };
+        if bit {
+            v |= num_bigint::BigUint::from(1u32) << k;
+        }
+    }
+    let mut pb = v.to_bytes_be();
+    // redundant leading zero bytes (also the single one the canonical integer form would need)
+    for _ in 0..(match t.below(6) { 0 => 1, 1 => 2, 2 => 1 + t.below(4), _ => 0 }) {
+        pb.insert(0, 0);
+    }
+    if t.chance(1, 25) {
+        let n = 1 + t.below(5) as usize;
+        pb = t.bytes(n);
+    }
+    let repr = match t.below(3) { 0 => Repr::Nat, 1 => Repr::Heap, _ => Repr::View };
+    let mut prog = Dag::new();
+    let mut node = prog.atom_r(&pb, repr);
+    // optionally under f / r / (a (q . path) 1)
+    for _ in 0..t.below(3) {
+        let op = prog.atom(&[if t.flip() { 5 } else { 6 }]);
+        let l = prog.list(&[node]);
+        node = prog.pair(op, l);
+    }
+    if t.chance(1, 5) {
+        let a = prog.atom(&[2]);
+        let q = prog.atom(&[1]);
+        let qp = prog.pair(q, node);
+        let one = prog.atom(&[1]);
+        let l = prog.list(&[qp, one]);
+        prog.pair(a, l);
+    }
+    ProgCase { p: crate::r#gen::programs::GenProg { prog, env, info: Default::default() }, flags: 0, budgets: vec![t.u64(), t.u64()] }
+}
+
 /// calibration: the port must reproduce the repository's pinned vectors (ported from the reference package)
 fn calibrate() -> Result<usize, String> {
     let mut n = 0;
@@ -200,7 +295,7 @@ fn calibrate() -> Result<usize, String> {
 }
 
 pub fn run(r: &mut Runner) {
-    r.rule = "programs/environments from the typed generator restricted to opcodes 1..36 minus 29/30 plus unknown opcodes (unassigned 1-byte values, 2..7-byte opcodes; the implementation-assigned 48..62 and the two 4-byte secp codes are excluded), full atom generator (non-canonical ints, leading-zero paths), mutation layer, default flags; budgets: unlimited (or 10^8), C, C-1 and two generated ones. \
+    r.rule = "programs/environments from the typed generator restricted to opcodes 1..36 minus 29/30 plus unknown opcodes (unassigned 1-byte values, 2..7-byte opcodes; the implementation-assigned 48..62 and the two 4-byte secp codes are excluded), full atom generator (non-canonical ints, leading-zero paths), mutation layer, default flags; budgets: unlimited (or 10^8), C, C-1 and two generated ones. Part programs-reprs: the same with every atom (operators, paths, quoted values) stored in a generated internal representation (inline / forced heap copy / view). Part paths: path atoms following generated spines of depth 0..45 (dense around 7/8, 15/16, 23/24, 31/32 bits, all-ones paths), with and without leading zero bytes, every representation, also under f/r/a. \
         Oracle: port of the reference Python clvm (adapters A1 div-floor-negative, A2 softfork-guard), calibrated on the classic lines of op-tests/*.txt and the classic TEST_CASES of run_program.rs. Compared: success <=> success, result tree and cost. \
         Non-trivial = the reference executed >= 3 operator applications; distinct by case."
         .into();
@@ -221,6 +316,10 @@ pub fn run(r: &mut Runner) {
     let cfg = ProgCfg { ops: OpSet::Classic, mutate_pct: 25, raw_pct: 6, reprs: false, crypto: false, max_atom: 80, ..Default::default() };
     let n = r.n(40_000, 2_000_000);
     r.run_part("programs", n, 600, |t: &mut Tape| gen_prog_case(t, &cfg), test_prog);
+    let n = r.n(40_000, 1_000_000);
+    r.run_part("programs-reprs", n, 700, |t: &mut Tape| gen_repr_case(t, &cfg), test_prog);
+    let n = r.n(40_000, 1_000_000);
+    r.run_part("paths", n, 120, gen_path_case, test_prog);
     for op in [3u8, 4, 5, 6, 7, 9, 10, 11, 12, 13, 14, 16, 17, 18, 19, 20, 21, 22, 23, 24, 25, 26, 27, 32, 33, 34] {
         r.require_label(&format!("op{op}"), 30);
     }
